@@ -824,6 +824,7 @@ func runC18(c *Ctx) {
 	}()
 
 	ruleResetBefore(c, p, "C18.reset")
+	ruleColumnCount(c, p, "C18.colcount")
 	ruleAdopt(c, p, "C18.adopt")
 	ruleInferTables(c, p, "C18")
 	c.R.Assumptions = append(c.R.Assumptions,
